@@ -103,6 +103,15 @@ Section Sim.
     | _ => false
     end.
 
+  (* an element of a PENDING list: as above, or one that Tor will not hold as written -- an integer
+     (sent as its decimal text) or an empty string *)
+  Definition pfine (k : kind) (a : atom) : bool :=
+    match a with
+    | AStr [] => true
+    | AInt _ => true
+    | _ => fine k a
+    end.
+
   (* an option with nothing pending shows Tor's value, parsed by its type *)
   (* [vals] = the values Tor holds for the option *)
   Definition synced_at (st : mst) (vals : list bytes) (cn : bytes) (k : kind) : Prop :=
@@ -116,7 +125,7 @@ Section Sim.
   Definition pend_rel (st : mst) (det : list bytes) (cn : bytes) (k : kind) (iv : ival) : Prop :=
     match iv with
     | IList l =>
-        is_list_kind k = true /\ forallb (fine k) l = true /\
+        is_list_kind k = true /\ forallb (pfine k) l = true /\
         ((dget cn (m_unsaved st) = Some UAlias /\ dget cn (m_config st) = Some (CList true l) /\ mem_bytes cn det = false)
          \/ (dget cn (m_unsaved st) = Some (UVal (CList true l)) /\ mem_bytes cn det = true))
     | IScalar s =>
@@ -140,6 +149,12 @@ Section Sim.
     (* list_parsers: the options whose view is a tracked list *)
     r_listp : forall cn k, In (cn, k) opts -> mem_bytes cn (m_listp st) = is_list_kind k
   }.
+
+  (* the relation does not look at the flags m_fs / m_f4 *)
+  Lemma Rel_flags_irrel st a d f1 f3 x y x' y' :
+    Rel st {| m_st := a; m_det := d; m_f1 := f1; m_f3 := f3; m_fs := x; m_f4 := y |} ->
+    Rel st {| m_st := a; m_det := d; m_f1 := f1; m_f3 := f3; m_fs := x'; m_f4 := y' |}.
+  Proof. intros [R1 R2 R3 R4 R5 R6 R7 R9 R8 R10]. constructor; assumption. Qed.
 
   (* ---- name resolution under the relation ---- *)
   Lemma find_real_name_opt st m name cn k :
@@ -239,16 +254,29 @@ Section Sim.
     destruct (m_unsaved st') as [|x u], (s_pend (m_st m)) as [|y p]; cbn in Hk; try discriminate; reflexivity.
   Qed.
 
-  Lemma elem_ok_fine k a : elem_ok k a = true -> fine k a = true.
+  Lemma fine_pfine k a : fine k a = true -> pfine k a = true.
+  Proof. destruct a as [[|c s]|z|b|t]; cbn [pfine]; auto. Qed.
+
+  Lemma forall_fine_pfine k l : forallb (fine k) l = true -> forallb (pfine k) l = true.
   Proof.
-    destruct a as [s|z|b|t]; cbn [elem_ok fine]; try discriminate. unfold text_ok. intros H.
+    induction l as [|a l IH]; [reflexivity|]. cbn [forallb]. intros H. apply andb_true_iff in H as [H1 H2].
+    now rewrite (fine_pfine _ _ H1), IH.
+  Qed.
+
+  (* a pending element that is a non-empty string is fine *)
+  Lemma pfine_fine k a : pfine k a = true -> odd_elem a = false -> fine k a = true.
+  Proof. destruct a as [[|c s]|z|b|t]; cbn [pfine odd_elem]; try discriminate; auto. Qed.
+
+  Lemma elem_ok_fine k a : elem_ok k a = true -> pfine k a = true.
+  Proof.
+    destruct a as [[|c s]|z|b|t]; cbn [elem_ok pfine fine]; try discriminate; try reflexivity. unfold text_ok. intros H.
     apply andb_true_iff in H as [H Hc]. repeat (apply andb_true_iff in H as [H ?]).
     repeat (apply andb_true_iff; split); assumption.
   Qed.
 
-  Lemma forall_elem_ok_fine k l : forallb (elem_ok k) l = true -> forallb (fine k) l = true.
+  Lemma forall_elem_ok_fine k l : forallb (elem_ok k) l = true -> forallb (pfine k) l = true.
   Proof.
-    induction l as [|a l IH]; [reflexivity|]. cbn. intros H. apply andb_true_iff in H as [H1 H2].
+    induction l as [|a l IH]; [reflexivity|]. cbn [forallb]. intros H. apply andb_true_iff in H as [H1 H2].
     now rewrite (elem_ok_fine _ _ H1), IH.
   Qed.
 
@@ -389,7 +417,7 @@ Section Sim.
     Qed.
   End ListOps.
 
-  Lemma lop_ok_atoms k o : lop_ok k o = true -> forallb (fine k) (lop_atoms o) = true.
+  Lemma lop_ok_atoms k o : lop_ok k o = true -> forallb (pfine k) (lop_atoms o) = true.
   Proof.
     destruct o as [a|m|i a|a|[i|]|i a]; cbn [lop_ok lop_atoms forallb]; intros H;
       try reflexivity; try (apply andb_true_iff in H as [_ H]); try (now rewrite (elem_ok_fine _ _ H)).
@@ -419,7 +447,7 @@ Section Sim.
   Lemma listop_target st m cn k :
     Rel st m -> In (cn, k) opts -> is_list_kind k = true -> mem_bytes cn (m_det m) = false ->
     exists L, dget cn (m_config st) = Some (CList true L) /\ cur_list defaults (m_st m) cn k = L /\
-              forallb (fine k) L = true /\
+              forallb (pfine k) L = true /\
               ((dget cn (s_pend (m_st m)) = None /\ dget cn (m_unsaved st) = None) \/
                (dget cn (s_pend (m_st m)) = Some (IList L) /\ dget cn (m_unsaved st) = Some UAlias)).
   Proof.
@@ -433,7 +461,7 @@ Section Sim.
         exists l. split; [assumption|]. split; [reflexivity|]. split; [assumption|]. right. auto.
     - destruct (r_sync _ _ R _ _ Hin Ep) as [Hu [Hv Hl]].
       destruct (Hl Hlk) as [els [Hc Hf]].
-      exists (map AStr els). split; [assumption|]. split; [|split; [assumption|left; auto]].
+      exists (map AStr els). split; [assumption|]. split; [|split; [now apply forall_fine_pfine|left; auto]].
       unfold view_list. rewrite <- Hv. unfold view_of. rewrite Hc. cbn [rval_of_gotten].
       now rewrite map_atom_text_AStr.
   Qed.
@@ -558,7 +586,7 @@ Section Sim.
     unfold step_ok. cbn [spec_check mon_step o_wrote o_res is_nil andb]. unfold spec_next. rewrite Hfd, Hfsrc, Hcur.
     split; [reflexivity|].
     destruct R as [R1 R2 R3 R4 R5 R6 R7 R9 R8 R10].
-    constructor; cbn [m_st m_det m_f1 m_f3 m_fs s_store s_pend with_unsaved m_parsers m_config m_defaults m_unsaved m_listp];
+    constructor; cbn [m_st m_det m_f1 m_f3 m_fs m_f4 s_store s_pend with_unsaved m_parsers m_config m_defaults m_unsaved m_listp];
       try assumption.
     - intros cn' k' Hin' Hp'. destruct (list_eq_dec ascii_dec cd cn') as [E|E].
       + subst cn'. rewrite dget_dset_same in Hp'. discriminate.
@@ -568,7 +596,8 @@ Section Sim.
     - intros cn' iv' Hp'. destruct (list_eq_dec ascii_dec cd cn') as [E|E].
       + subst cn'. rewrite dget_dset_same in Hp'. inversion Hp'. subst iv'. exists kd. split; [assumption|].
         cbn [pend_rel with_unsaved m_unsaved m_config]. split; [assumption|]. split.
-        * apply forallb_forall. intros a Ha. eapply fine_copy; [exact Hok|]. exact (proj1 (forallb_forall _ _) Hfine a Ha).
+        * apply forallb_forall. intros a Ha. apply fine_pfine. eapply fine_copy; [exact Hok|].
+          exact (proj1 (forallb_forall _ _) Hfine a Ha).
         * right. rewrite dget_dset_same. split; [reflexivity|apply mem_bytes_cons_same].
       + rewrite dget_dset_other in Hp' by assumption. destruct (R6 _ _ Hp') as [k' [Hin' Hpr]].
         exists k'. split; [assumption|]. eapply pend_rel_frame; [exact E| | | |exact Hpr]; cbn [with_unsaved m_unsaved m_config].
